@@ -420,11 +420,14 @@ def r_ja(repo, rep):
     rec = pm.get('ja_of.rec')
     p = rec.args.args[0].arg
     leaf = node = None
+    nodes_ = []
     for st, ret in codec.returns_of(rec):
         if codec.path_has(st, A(N(p), 'is_leaf'), True):
             leaf = ret
         elif codec.path_has(st, A(N(p), 'is_leaf'), False):
             node = ret
+            if ret not in nodes_:
+                nodes_.append(ret)
     w = '%s:%s ja_of.rec' % (PJA, rec.lineno)
     lt = codec.fstr_tokens(leaf)
     ok = len(lt) == 2 and lt[0][0] == '{' and lt[0][1] == A(N(p), 'cat') and lt[1][-1] == '}'
@@ -461,11 +464,17 @@ def r_ja(repo, rep):
                 rep.check(same, 'R20.6', '%s:%s %s' % (um.rel, f_.lineno, f_.name), 'ja_of:word-verbatim',
                           'words other than the %d bracket names are written exactly as stored (the reader takes the text literally)' % (len(whole) if same else 0),
                           '%s does not leave other words unchanged (%s): the Japanese reader reads back a different word' % (f_.name, why))
-    nt = codec.fstr_tokens(node)
-    okn = len(nt) == 3 and nt[0] == ['{', A(N(p), 'op_symbol')] and nt[1] == [A(N(p), 'cat')] and nt[2][-1] == '}' and \
-        nt[2][0][0] == 'call' and nt[2][0][1] == A(C(' '), 'join')
-    rep.check(okn, 'R20.6', w, 'ja_of:node-template', 'a node is written "{symbol cat child child}" with the rule symbol first',
-              'node template is %s' % [codec.tok_text(t)[:60] for t in nt])
+    # every way an inner node can be written (unary / binary may be formatted apart) is the one record the reader knows
+    okn = bool(nodes_)
+    bad_nt = None
+    for node_ in nodes_:
+        nt = codec.fstr_tokens(node_)
+        ok1 = len(nt) == 3 and nt[0] == ['{', A(N(p), 'op_symbol')] and nt[1] == [A(N(p), 'cat')] and nt[2][-1] == '}' and \
+            nt[2][0][0] == 'call' and nt[2][0][1] == A(C(' '), 'join')
+        if not ok1:
+            okn, bad_nt = False, nt
+    rep.check(okn, 'R20.6', w, 'ja_of:node-template', 'a node is written "{symbol cat child child}" with the stored rule symbol first',
+              'node template is %s' % [codec.tok_text(t)[:60] for t in (bad_nt or [])])
     jm = repo.module(JRD)
     rp_ = codec.ReaderPaths(jm, '_JaCCGLineReader')
     wl = '%s:%s _JaCCGLineReader (leaf records)' % (JRD, rp_.entry.lineno)
@@ -529,3 +538,7 @@ def check(repo, rep, tier):
     rep.floor('reader functions scanned for find()-derived slices', nf, 25)
     r_ptb(repo, rep)
     r_ja(repo, rep)
+    # the PTB reader asks guess_combinator_by_triplet for the label of every binary node it builds: that function must
+    # hand back a result for any three categories (shared with C12 R12.4)
+    from .c12 import r_label_recovery
+    r_label_recovery(repo, rep, 'R20.6')
